@@ -1062,6 +1062,51 @@ fn run_codec<F: FieldApi>(tr: &mut Trace, rng: &mut Rng, plan: &Plan) {
         let mut t = Vec::new(); for _ in 0..blocks { t.extend_from_slice(&qb); } cands.push(t.clone());
         t.push(0xFF); cands.push(t);
     }
+    // fold-targeted two-block strings: the Horner step computes hi*2^(8n) + lo by folding hi*F (F = 2^(8n) mod q)
+    // onto lo; choose lo so that the folded sum s1 = m + c*F (c*2^(8n) + m = hi*F + lo) lands just below / at / just
+    // above 2^(8n) + j*2^64 and 2^(8n) + j*2^64 - F: second-fold carries and their limb overflows
+    {
+        let top = &one << (8 * n);
+        let f = &top % &q;
+        let w64 = &one << 64;
+        let mut his: Vec<BigUint> = vec![&top - 1u32, &top - 2u32, &top - &f, &top - (&one << (8 * n - 20)), &q - 1u32,
+                                         (&top - 1u32) - (BigUint::from(rng.u64()) << 64)];
+        his.push(&top - 1u32 - BigUint::from(rng.u64() >> 8));
+        for hi in his.iter() {
+            let hf = hi * &f;
+            let c0 = &hf >> (8 * n);
+            let mut targets: Vec<BigUint> = Vec::new();
+            for j in 0u32..4 {
+                let base = &top + (&w64 * j);
+                for d in [0u32, 1, 2] {
+                    targets.push(&base + d);
+                    if base > BigUint::from(d) { targets.push(&base - d); }
+                    if &base + d >= f { targets.push(&base + d - &f); }
+                    if base >= &f + d { targets.push(&base - &f - d); }
+                    targets.push(&base + &f + d);
+                }
+                targets.push(&base + (BigUint::from(rng.u64()) % &f.clone().max(one.clone())));
+                if &base + &w64 >= f { targets.push(&base + &w64 - &f + (BigUint::from(rng.u64()) % &f.clone().max(one.clone()))); }
+            }
+            for t in targets.iter() {
+                for dc in [0u32, 1, 2] {
+                    if dc == 2 && c0 == BigUint::from(0u32) { continue; }
+                    let c = match dc { 0 => &c0 + 1u32, 1 => c0.clone(), _ => &c0 - 1u32 };
+                    let cf = &c * &f;
+                    if *t < cf { continue; }
+                    let m = t - &cf;
+                    if m >= top { continue; }
+                    let tot = (&c << (8 * n)) + &m;
+                    if tot < hf { continue; }
+                    let lo = &tot - &hf;
+                    if lo >= top { continue; }
+                    let mut b = to_le(&lo, n); b.extend_from_slice(&to_le(hi, n));
+                    cands.push(b.clone());
+                    if cands.len() % 7 == 0 { b.splice(0..0, rng.bytes(n)); cands.push(b); }
+                }
+            }
+        }
+    }
     for _ in 0..plan.codec_random {
         let len = match rng.below(4) { 0 => n, 1 => rng.below(3 * n + 2), 2 => n + rng.below(2), _ => 2 * n };
         let mut b = rng.bytes(len);
